@@ -1229,6 +1229,9 @@ func ghostCanon(name string) string {
 	if strings.HasPrefix(name, "ghost_closed") {
 		return "ghost_closed"
 	}
+	if strings.HasPrefix(name, "ghost_nsent") {
+		return "ghost_nsent"
+	}
 	return name
 }
 
